@@ -36,6 +36,11 @@ type loopClient struct {
 	svc *storeService.Service
 	// upload streams the client has opened and not completed with CloseAndRecv
 	open []*setFileClient
+	// concurrentUploads: the server's handler of an upload runs in a goroutine of its own while the
+	// client is still sending (as it does in reality), so that it can END the call before the
+	// client has sent everything: gRPC then answers further Sends with io.EOF and delivers the
+	// status through CloseAndRecv. The default (false) runs the handler at CloseAndRecv.
+	concurrentUploads bool
 	// recvFailAfter >= 0: the server's Recv on an upload stream fails with a non-EOF transport
 	// error after that many messages
 	recvFailAfter int
@@ -171,7 +176,76 @@ func (s *setFileClient) CloseAndRecv() (*pb.SetFileResponse, error) {
 	return &pb.SetFileResponse{}, nil
 }
 
+// ---- SetFile with the server's handler running concurrently ----
+
+type concSetFile struct {
+	streamBase
+	c      *loopClient
+	ch     chan *pb.SetFileRequest
+	done   chan struct{}
+	err    error
+	ended  bool
+	closed bool
+}
+
+type concSetFileServer struct {
+	grpc.ServerStream
+	s *concSetFile
+}
+
+func (s *concSetFileServer) Recv() (*pb.SetFileRequest, error) {
+	select {
+	case m, ok := <-s.s.ch:
+		if !ok {
+			return nil, io.EOF
+		}
+		return m, nil
+	case <-s.s.ctx.Done():
+		return nil, errTransport
+	}
+}
+func (s *concSetFileServer) SendAndClose(*pb.SetFileResponse) error { return nil }
+
+func (s *concSetFile) Send(r *pb.SetFileRequest) error {
+	if err := s.ctx.Err(); err != nil {
+		return err
+	}
+	if s.ended {
+		return io.EOF // the call is over; the status is to be fetched with CloseAndRecv
+	}
+	s.ch <- copySetReq(r)
+	return nil
+}
+
+func (s *concSetFile) CloseAndRecv() (*pb.SetFileResponse, error) {
+	if !s.closed {
+		s.closed = true
+		close(s.ch)
+	}
+	<-s.done
+	if s.err != nil {
+		return nil, verifenv.Transport(s.err)
+	}
+	return &pb.SetFileResponse{}, nil
+}
+
+func (c *loopClient) setFileConcurrent(ctx context.Context) pb.StoreV1_SetFileClient {
+	s := &concSetFile{streamBase: streamBase{ctx: ctx}, c: c, ch: make(chan *pb.SetFileRequest, 16), done: make(chan struct{})}
+	go func() {
+		ss := &streamBase{ctx: c.incoming(ctx)}
+		s.err = server.ContextStreamInterceptor(c.svc, ss, nil, func(srv any, stream grpc.ServerStream) error {
+			return c.svc.SetFile(&concSetFileServer{ServerStream: stream, s: s})
+		})
+		s.ended = true
+		close(s.done)
+	}()
+	return s
+}
+
 func (c *loopClient) SetFile(ctx context.Context, _ ...grpc.CallOption) (pb.StoreV1_SetFileClient, error) {
+	if c.concurrentUploads {
+		return c.setFileConcurrent(ctx), nil
+	}
 	s := &setFileClient{streamBase: streamBase{ctx: ctx}, c: c}
 	c.open = append(c.open, s)
 	return s, nil
